@@ -20,15 +20,175 @@ func (ex *Exec) evalCall(e *ast.CallExpr) Value {
 			return ex.evalBuiltin(e, b.Name())
 		}
 	}
+	// a function literal called on the spot, or a local variable holding one
+	switch f := unparen(e.Fun).(type) {
+	case *ast.FuncLit:
+		return ex.callClosure(ClosureV{Lit: f, Env: ex.frame()}, e)
+	case *ast.Ident:
+		if _, isVar := info.Uses[f].(*types.Var); isVar {
+			if cl, ok := ex.eval(f).(ClosureV); ok {
+				return ex.callClosure(cl, e)
+			}
+			ex.unsupported("call through a function value that is not a local function literal at %s", ex.where(e))
+		}
+	}
+	fobj, args := ex.prepCall(e)
+	return ex.doCall(fobj, args, e)
+}
+
+// callClosure executes the body of a function literal in a new frame whose parent is the frame it was created in.
+func (ex *Exec) callClosure(cl ClosureV, e *ast.CallExpr) Value {
+	if len(ex.frames) > 40 {
+		ex.unsupported("call depth exceeded at %s", ex.where(e))
+	}
+	var args []Value
+	for _, a := range e.Args {
+		args = append(args, ex.eval(a))
+	}
+	if e.Ellipsis.IsValid() {
+		ex.unsupported("variadic call of a function literal at %s", ex.where(e))
+	}
+	info := cl.Env.pkg.Info
+	fm := &Frame{pkg: cl.Env.pkg, vars: map[types.Object]*Obj{}, parent: cl.Env}
+	ex.frames = append(ex.frames, fm)
+	i := 0
+	if cl.Lit.Type.Params != nil {
+		for _, f := range cl.Lit.Type.Params.List {
+			if len(f.Names) == 0 {
+				i++
+				continue
+			}
+			for _, n := range f.Names {
+				if i >= len(args) {
+					ex.unsupported("function literal called with too few arguments at %s", ex.where(e))
+				}
+				if n.Name != "_" {
+					t := info.Defs[n].Type()
+					if _, isSlice := t.Underlying().(*types.Slice); isSlice && f.Type != nil {
+						if _, variadic := f.Type.(*ast.Ellipsis); variadic {
+							ex.unsupported("variadic function literal at %s", ex.where(e))
+						}
+					}
+					ex.declare(n, t, ex.coerce(args[i], t))
+				}
+				i++
+			}
+		}
+	}
+	if i != len(args) {
+		ex.unsupported("function literal called with %d arguments, wants %d at %s", len(args), i, ex.where(e))
+	}
+	var named []*ast.Ident
+	if cl.Lit.Type.Results != nil {
+		for _, f := range cl.Lit.Type.Results.List {
+			for _, n := range f.Names {
+				ex.declare(n, info.Defs[n].Type(), nil)
+				named = append(named, n)
+			}
+		}
+	}
+	c := ex.execBlock(cl.Lit.Body.List)
+	ex.runDefers()
+	res := fm.results
+	if c == ctlReturn && len(res) == 0 {
+		for _, n := range named {
+			res = append(res, ex.load(fm.vars[info.Defs[n]], 0, info.Defs[n].Type()))
+		}
+	}
+	ex.frames = ex.frames[:len(ex.frames)-1]
+	return pack(res)
+}
+
+// deferredCall is a call whose function and arguments were evaluated at the defer statement (as Go does) and that
+// runs when the enclosing function returns.
+type deferredCall struct {
+	fobj *types.Func
+	args []Value
+	at   *ast.CallExpr
+}
+
+func (ex *Exec) execDefer(s *ast.DeferStmt) {
+	info := ex.frame().pkg.Info
+	if tv, ok := info.Types[s.Call.Fun]; ok && tv.IsType() {
+		ex.unsupported("deferred conversion at %s", ex.where(s))
+	}
+	if id, ok := unparen(s.Call.Fun).(*ast.Ident); ok {
+		if _, ok := info.Uses[id].(*types.Builtin); ok {
+			ex.unsupported("deferred builtin at %s", ex.where(s))
+		}
+	}
+	if lit, ok := unparen(s.Call.Fun).(*ast.FuncLit); ok {
+		if len(s.Call.Args) > 0 {
+			ex.unsupported("deferred function literal with arguments at %s", ex.where(s))
+		}
+		fm := ex.frame()
+		// results are fixed when the return statement runs; a deferred literal that assigns to a named result
+		// would change them afterwards, which is not modelled
+		named := map[types.Object]bool{}
+		if fm.fn != nil && fm.fn.Decl.Type.Results != nil {
+			for _, f := range fm.fn.Decl.Type.Results.List {
+				for _, n := range f.Names {
+					named[fm.pkg.Info.Defs[n]] = true
+				}
+			}
+		}
+		bad := fm.fn == nil
+		ast.Inspect(lit.Body, func(n ast.Node) bool {
+			if id, ok := n.(*ast.Ident); ok && named[fm.pkg.Info.Uses[id]] {
+				bad = true
+			}
+			return true
+		})
+		if bad {
+			ex.unsupported("deferred function literal that may change a named result at %s", ex.where(s))
+		}
+		fm.defers = append(fm.defers, deferredCall{nil, []Value{ClosureV{Lit: lit, Env: fm}}, s.Call})
+		return
+	}
+	fobj, args := ex.prepCall(s.Call)
+	fm := ex.frame()
+	fm.defers = append(fm.defers, deferredCall{fobj, args, s.Call})
+}
+
+// runDefers runs the deferred calls of the innermost frame, last in first out.
+func (ex *Exec) runDefers() {
+	fm := ex.frame()
+	for len(fm.defers) > 0 {
+		d := fm.defers[len(fm.defers)-1]
+		fm.defers = fm.defers[:len(fm.defers)-1]
+		if d.fobj == nil {
+			ex.callClosure(d.args[0].(ClosureV), d.at)
+			continue
+		}
+		ex.doCall(d.fobj, d.args, d.at)
+	}
+}
+
+func (ex *Exec) doCall(fobj *types.Func, args []Value, e *ast.CallExpr) Value {
+	full := fobj.FullName()
+	if fr := ex.prog.FuncOf(fobj); fr != nil {
+		return ex.callModule(fr, args, e)
+	}
+	return ex.callStd(full, fobj, args, e)
+}
+
+// prepCall resolves the callee of e and evaluates receiver and arguments.
+func (ex *Exec) prepCall(e *ast.CallExpr) (*types.Func, []Value) {
+	info := ex.frame().pkg.Info
 	var fobj *types.Func
 	var recvExpr ast.Expr
+	methodExpr := false
 	switch f := unparen(e.Fun).(type) {
 	case *ast.Ident:
 		fobj, _ = info.Uses[f].(*types.Func)
 	case *ast.SelectorExpr:
 		if sel := info.Selections[f]; sel != nil {
 			fobj, _ = sel.Obj().(*types.Func)
-			recvExpr = f.X
+			if sel.Kind() == types.MethodExpr {
+				methodExpr = true // (*T).M(recv, args...): the receiver is the first ordinary argument
+			} else {
+				recvExpr = f.X
+			}
 		} else {
 			fobj, _ = info.Uses[f.Sel].(*types.Func)
 		}
@@ -56,35 +216,39 @@ func (ex *Exec) evalCall(e *ast.CallExpr) Value {
 			args = append(args, ex.eval(recvExpr))
 		}
 	}
+	callArgs := e.Args
+	if methodExpr {
+		if len(e.Args) == 0 {
+			ex.unsupported("method expression without receiver at %s", ex.where(e))
+		}
+		args = append(args, ex.eval(e.Args[0]))
+		callArgs = e.Args[1:]
+	}
 	// arguments (variadic handled for the callee's last parameter)
 	np := sig.Params().Len()
 	if sig.Variadic() && !e.Ellipsis.IsValid() {
 		for i := 0; i < np-1; i++ {
-			args = append(args, ex.eval(e.Args[i]))
+			args = append(args, ex.eval(callArgs[i]))
 		}
 		var extra []Value
-		for i := np - 1; i < len(e.Args); i++ {
-			extra = append(extra, ex.eval(e.Args[i]))
+		for i := np - 1; i < len(callArgs); i++ {
+			extra = append(extra, ex.eval(callArgs[i]))
 		}
 		args = append(args, TupleV(extra))
-	} else if len(e.Args) == 1 && np > 1 {
-		args = append(args, ex.eval(e.Args[0]).(TupleV)...)
+	} else if len(callArgs) == 1 && np > 1 {
+		args = append(args, ex.eval(callArgs[0]).(TupleV)...)
 	} else {
-		for _, a := range e.Args {
+		for _, a := range callArgs {
 			args = append(args, ex.eval(a))
 		}
 	}
-	off := len(args) - len(e.Args)
-	if !sig.Variadic() && len(e.Args) == np {
+	off := len(args) - len(callArgs)
+	if !sig.Variadic() && len(callArgs) == np {
 		for i := 0; i < np; i++ {
 			args[off+i] = ex.coerce(args[off+i], sig.Params().At(i).Type())
 		}
 	}
-	full := fobj.FullName()
-	if fr := ex.prog.FuncOf(fobj); fr != nil {
-		return ex.callModule(fr, args, e)
-	}
-	return ex.callStd(full, fobj, args, e)
+	return fobj, args
 }
 
 func pack(vals []Value) Value {
@@ -171,6 +335,7 @@ func (ex *Exec) inline(fr *FuncRef, args []Value, at ast.Node) Value {
 		}
 	}
 	c := ex.execBlock(fr.Decl.Body.List)
+	ex.runDefers()
 	res := fm.results
 	if c == ctlReturn && len(res) == 0 && fr.Decl.Type.Results != nil {
 		for _, f := range fr.Decl.Type.Results.List {
